@@ -396,9 +396,7 @@ def _check_binding(ms, desc_cls, request, numeric, index, b, vars_, query, body_
         fn = qfield(k)
         f = fields.get(fn)
         if f and f["required"] and "." not in k and bound(fn) and v in default_texts(desc.fields_by_name[fn]) | {"b''"}:
-            if index == 0 and fn in reserved and fn in top_vars:
-                sig = "http.required_default_reserved_word"
-            elif index > 0:
+            if index > 0:
                 sig = "http.additional_binding_first_rule_only"
             else:
                 sig = None
